@@ -27,7 +27,8 @@ Inductive ev :=
 | ECall (t : Z) (k : key) | EDone (t : Z) (k : key)
 | EBA (t : Z) (k : key) | ERA (t : Z) (k : key)
 | EBR (t : Z) (k : key) | ERR (t : Z) (k : key)
-| EBX (t : Z) (i : nat) | ERX (t : Z) (i : nat).
+| EBX (t : Z) (i : nat) | ERX (t : Z) (i : nat)
+| ELock (t : Z) | EUnlock (t : Z).       (* the registry mutex callbacks_m_; ignored by the clauses below, used by Lts.v *)
 
 (* the operations of a script *)
 Inductive rop := RAdd (k : key) | RRem (k : key) | RDestroy (i : nat) | RCollect (r : Z).
